@@ -115,7 +115,7 @@ fn gen_val(t: &mut Tape, ty: &Ty) -> V {
         Ty::Int => V::Int(*t.pick(&[0i64, 1, 2, -1, 3, 9223372036854775807, -5])),
         Ty::Str => V::Str(t.pick(&["", "a", "b", "ab", "é", "a b", "B"]).to_string()),
         Ty::Bool => V::Bool(t.bool()),
-        Ty::Float => V::Float(*t.pick(&[0.0, 1.0, -1.0, 1.5, 2.0, 1e300, -0.5])),
+        Ty::Float => V::Float(*t.pick(&[0.0, -0.0, 1.0, -1.0, 1.5, 2.0, 1e300, -0.5, 0.0])),
         Ty::Tuple(ts) => V::Tuple(ts.iter().map(|x| gen_val(t, x)).collect()),
         Ty::Seq(e) => V::Seq((0..t.below(4)).map(|_| gen_val(t, e)).collect()),
         Ty::Opt(e) => {
